@@ -1,8 +1,13 @@
 (* Translated — auxiliary theorem file (not a numbered property): the pieces of /repo that tools/translate.py
    regenerates from the CURRENT Python source on every build are equal to the hand-written model.
-   Used by the checks of C07 (answer table, threshold), C14 (KeyPattern), C02 (exception priority), C12 (prompt keys). *)
+   Used by the checks of C07 (answer table, threshold, error counter, process_input_result), C14 (KeyPattern),
+   C02 (signal priorities), C12 (prompt keys, option methods, __str__); the ticket machine (C10), the routing of enqueue_signal (C01, C03)
+   and the screen stack (C04..C06) are covered as well.
+   t_res is the translated methods' result: t_ok value | t_raise exception.  tm_inv (proofs/TranslatedEq.v): ticket
+   ids are unique within a line and below the counter. *)
 From Coq Require Import ZArith NArith List Bool.
-From SL Require Import PyInt KeyPattern LoopSem ScreenSem Prompt gen.Translated proofs.TranslatedEq.
+From RecordUpdate Require Import RecordUpdate.
+From SL Require Import PyInt KeyPattern LoopSem ScreenSem Prompt ScreenOut gen.Translated proofs.TranslatedEq.
 Import ListNotations.
 
 Theorem T_process_input_table : forall rv, t_process_input rv = action_of rv.
@@ -28,6 +33,186 @@ Theorem T_prompt_keys :
   t_HELP_DESCRIPTION = Prompt.HELP_DESCRIPTION.
 Proof. exact prompt_keys_eq. Qed.
 
+(* ---- signals.py: every class and every creation site ---- *)
+Theorem T_sig_render : forall src, t_sig_RenderScreenSignal src t_sig_RenderScreenSignal_default_priority = render_spec src.
+Proof. exact sig_render_eq. Qed.
+Theorem T_sig_close : forall scr, t_sig_CloseScreenSignal (Some scr) t_sig_CloseScreenSignal_default_priority = close_spec scr.
+Proof. exact sig_close_eq. Qed.
+Theorem T_sig_exception : t_sig_ExceptionSignal None = exception_spec.
+Proof. exact sig_exception_eq. Qed.
+Theorem T_sig_ready : forall src h d ok,
+  t_sig_InputReadySignal src h d t_sig_InputReadySignal_default_priority ok = ready_spec src h d ok.
+Proof. exact sig_ready_eq. Qed.
+Theorem T_sig_received : forall req d,
+  received_spec req d =
+  let t := t_sig_InputReceivedSignal None d t_sig_InputReceivedSignal_default_priority in
+  {| sp_cls := sp_cls t; sp_prio := sp_prio t; sp_src := sp_src t; sp_a := req; sp_b := sp_b t; sp_data := sp_data t |}.
+Proof. exact sig_received_eq. Qed.
+Theorem T_signal_priorities :
+  t_sig_RenderScreenSignal_default_priority = sp_prio (render_spec None) /\
+  t_sig_CloseScreenSignal_default_priority = sp_prio (close_spec 0) /\
+  t_sig_InputReadySignal_default_priority = sp_prio (ready_spec None 0 [] true) /\
+  t_sig_InputReceivedSignal_default_priority = sp_prio (received_spec 0 []) /\
+  t_sh_create_signal_default_priority = sp_prio (render_spec None) /\
+  sp_prio (t_sig_ExceptionSignal None) = sp_prio exception_spec.
+Proof. exact signal_priorities_eq. Qed.
+Theorem T_signal_sites :
+  (forall src h d, t_req_emit_input_ready_signal src h d = ready_spec src h d true) /\
+  (forall src h, t_req_emit_failed_input_ready_signal src h = ready_spec src h [] false) /\
+  (forall req d, received_spec req d =
+     let t := t_req_run_signal d in
+     {| sp_cls := sp_cls t; sp_prio := sp_prio t; sp_src := sp_src t; sp_a := req; sp_b := sp_b t; sp_data := sp_data t |}) /\
+  (forall s, t_sh_redraw_signal s = render_spec (Some s)) /\
+  (forall s, t_sh_close_signal s = close_spec s) /\
+  t_sched_redraw_signal = render_spec None /\
+  t_sched_push_screen_modal_signal = render_spec None /\
+  t_exception_signal = exception_spec.
+Proof. exact signal_sites_eq. Qed.
+
+(* ---- ticket_machine.py ---- *)
+Theorem T_tm_init : t_tm_init = tm_empty.
+Proof. exact tm_init_eq. Qed.
+Theorem T_tm_take_ticket : forall tm line, tm_inv tm -> t_tm_take_ticket tm line = t_ok (take_ticket tm line).
+Proof. exact tm_take_ticket_eq. Qed.
+Theorem T_tm_check_ticket : forall tm line id, tm_inv tm ->
+  t_tm_check_ticket tm line id = match check_ticket tm line id with Some r => t_ok r | None => t_raise t_KeyError end.
+Proof. exact tm_check_ticket_eq. Qed.
+Theorem T_tm_mark_line_to_go : forall tm line, tm_inv tm -> t_tm_mark_line_to_go tm line = t_ok (mark_line_to_go tm line).
+Proof. exact tm_mark_line_to_go_eq. Qed.
+Theorem T_tm_inv_empty : tm_inv tm_empty.
+Proof. exact tm_inv_empty. Qed.
+Theorem T_tm_inv_take : forall tm line, tm_inv tm -> tm_inv (snd (take_ticket tm line)).
+Proof. exact tm_inv_take. Qed.
+Theorem T_tm_inv_mark : forall tm line, tm_inv tm -> tm_inv (mark_line_to_go tm line).
+Proof. exact tm_inv_mark. Qed.
+Theorem T_tm_inv_check : forall tm line id b tm', tm_inv tm -> check_ticket tm line id = Some (b, tm') -> tm_inv tm'.
+Proof. exact tm_inv_check. Qed.
+
+(* ---- screen_stack.py (the model's st_stack is top first: rev) and the scheduler's use of it ---- *)
+Theorem T_ss_init : t_ss_init = rev [].
+Proof. exact ss_init_eq. Qed.
+Theorem T_ss_empty : forall st, t_ss_empty (rev st) = t_ok (match st with [] => true | _ :: _ => false end).
+Proof. exact ss_empty_eq. Qed.
+Theorem T_ss_size : forall st, t_ss_size (rev st) = t_ok (length st).
+Proof. exact ss_size_eq. Qed.
+Theorem T_ss_append : forall st d, t_ss_append (rev st) d = t_ok (rev (d :: st)).
+Proof. exact ss_append_eq. Qed.
+Theorem T_ss_add_first : forall st d, t_ss_add_first (rev st) d = t_ok (rev (st ++ [d])).
+Proof. exact ss_add_first_eq. Qed.
+Theorem T_ss_pop : forall st,
+  t_ss_pop (rev st) t_ss_pop_default_remove =
+  match st with [] => t_raise t_ScreenStackEmptyException | top :: r => t_ok (top, rev r) end.
+Proof. exact ss_pop_eq. Qed.
+Theorem T_ss_peek : forall st,
+  t_ss_pop (rev st) false =
+  match st with [] => t_raise t_ScreenStackEmptyException | top :: _ => t_ok (top, rev st) end.
+Proof. exact ss_peek_eq. Qed.
+Theorem T_get_last_screen : forall st,
+  t_sched_get_last_screen (rev st) =
+  match st with [] => t_raise t_ExitMainLoop | top :: _ => t_ok (top, rev st) end.
+Proof. exact get_last_screen_eq. Qed.
+Theorem T_screen_data :
+  (forall id s a m, t_ScreenData id s a m = {| sd_id := id; sd_scr := s; sd_args := a; sd_modal := m |}) /\
+  (forall id s a, t_sched_schedule_screen_data id s a = {| sd_id := id; sd_scr := s; sd_args := a; sd_modal := false |}) /\
+  (forall id s a, t_sched_push_screen_data id s a = {| sd_id := id; sd_scr := s; sd_args := a; sd_modal := false |}) /\
+  (forall id s a, t_sched_push_screen_modal_data id s a = {| sd_id := id; sd_scr := s; sd_args := a; sd_modal := true |}) /\
+  t_ScreenData_default_args = 0.
+Proof. exact screen_data_eq. Qed.
+Theorem T_sched_stack_ops : forall st d,
+  t_sched_schedule_screen_stack (rev st) d = t_ok (rev (st ++ [d])) /\
+  t_sched_push_screen_stack (rev st) d = t_ok (rev (d :: st)) /\
+  t_sched_push_screen_modal_stack (rev st) d = t_ok (rev (d :: st)).
+Proof. exact sched_stack_ops_eq. Qed.
+
+(* ---- event_queue.py and MainLoop.enqueue_signal ---- *)
+Theorem T_eq_init : t_eq_init = empty_queue.
+Proof. exact eq_init_eq. Qed.
+Theorem T_eq_empty : forall q, t_eq_empty q = t_ok (q_empty q).
+Proof. exact eq_empty_eq. Qed.
+Theorem T_eq_put : forall q sg, t_eq_put q sg = t_ok (q_put q sg).
+Proof. exact eq_put_eq. Qed.
+Theorem T_eq_enqueue : forall q sg, t_eq_enqueue q sg = t_ok (q_put q sg).
+Proof. exact eq_enqueue_eq. Qed.
+Theorem T_eq_contains_source : forall q src, t_eq_contains_source q src = t_ok (q_contains_source q src).
+Proof. exact eq_contains_source_eq. Qed.
+Theorem T_eq_add_source : forall q o, t_eq_add_source q o = t_ok (q_add_source q o).
+Proof. exact eq_add_source_eq. Qed.
+Theorem T_eq_enqueue_if_source_belongs : forall q sg src,
+  t_eq_enqueue_if_source_belongs q sg src = t_ok (if q_contains_source q src then (true, q_put q sg) else (false, q)).
+Proof. exact eq_enqueue_if_source_belongs_eq. Qed.
+Theorem T_ml_enqueue_loop : forall U (s : lstate U) l sg,
+  t_ml_enqueue_loop (qstore s) l sg =
+  t_ok (match route s l (sg_src sg) with
+        | Some q => (true, set_nth (qstore s) q (q_put (get_q s q) sg))
+        | None => (false, qstore s)
+        end).
+Proof. exact (@ml_enqueue_loop_eq). Qed.
+Theorem T_ml_enqueue_signal : forall U (s : lstate U) sg,
+  t_ml_enqueue_signal (force_quit s) (qstore s) (levels s) (active s) sg = t_ok (qstore (do_enqueue s sg)).
+Proof. exact (@ml_enqueue_signal_eq). Qed.
+
+Theorem T_eq_get : forall q,
+  t_eq_get q = match q_pop q with None => t_raise t_Blocked | Some ((_, _, sg), q') => t_ok (sg, q') end.
+Proof. exact eq_get_eq. Qed.
+Theorem T_eq_get_top_event_if_priority : forall q prio,
+  t_eq_get_top_event_if_priority q prio =
+  match q_pop q with
+  | None => t_raise t_Blocked
+  | Some ((p, cnt, sg), q') =>
+    if (p =? prio)%Z then t_ok (Some sg, q') else t_ok (None, q_put_entry q' (p, cnt, sg))
+  end.
+Proof. exact eq_get_top_event_if_priority_eq. Qed.
+
+(* ---- prompt.py: the option methods and __str__ ---- *)
+Theorem T_prompt_init : forall m, t_prompt_init m = t_ok (Prompt.new_prompt m).
+Proof. exact prompt_init_eq. Qed.
+Theorem T_prompt_defaults :
+  t_prompt_init_default_message = Some Prompt.DEFAULT_MESSAGE /\
+  t_prompt_add_refresh_option_default_description = Prompt.REFRESH_DESCRIPTION /\
+  t_prompt_add_continue_option_default_description = Prompt.CONTINUE_DESCRIPTION /\
+  t_prompt_add_quit_option_default_description = Prompt.QUIT_DESCRIPTION /\
+  t_prompt_add_help_option_default_description = Prompt.HELP_DESCRIPTION.
+Proof. exact prompt_defaults_eq. Qed.
+Theorem T_prompt_set_message : forall p m, t_prompt_set_message p m = t_ok (Prompt.set_message p m).
+Proof. exact prompt_set_message_eq. Qed.
+Theorem T_prompt_add_option : forall p k d, t_prompt_add_option p k d = t_ok (Prompt.add_option p k d).
+Proof. exact prompt_add_option_eq. Qed.
+Theorem T_prompt_update_option : forall p k d, t_prompt_update_option p k d = t_ok (Prompt.update_option p k d).
+Proof. exact prompt_update_option_eq. Qed.
+Theorem T_prompt_add_special : forall p d,
+  t_prompt_add_refresh_option p d = t_ok (Prompt.add_refresh_option p d) /\
+  t_prompt_add_continue_option p d = t_ok (Prompt.add_continue_option p d) /\
+  t_prompt_add_quit_option p d = t_ok (Prompt.add_quit_option p d) /\
+  t_prompt_add_help_option p d = t_ok (Prompt.add_help_option p d).
+Proof. exact prompt_add_special_eq. Qed.
+Theorem T_prompt_remove_option : forall p k,
+  t_prompt_remove_option p k = t_ok (Prompt.dict_get (Prompt.p_options p) k, Prompt.remove_option p k).
+Proof. exact prompt_remove_option_eq. Qed.
+Theorem T_prompt_str : forall p, t_prompt_str p = Prompt.prompt_str p.
+Proof. exact prompt_str_eq. Qed.
+
+(* ---- what a draw prints around the widget: the separator, the press-ENTER message, the paging constant ---- *)
+Theorem T_spacer : forall w, t_spacer w = ScreenOut.spacer w.
+Proof. exact spacer_eq. Qed.
+Theorem T_continue_message : t_continue_message = ScreenOut.continue_message /\ t_ENTER = ScreenOut.ENTER.
+Proof. exact continue_message_eq. Qed.
+Theorem T_prompt_height : t_prompt_height = 2%Z.
+Proof. exact prompt_height_eq. Qed.
+
+(* ---- InputManager.process_input's error counter, ScreenScheduler.process_input_result ---- *)
+Theorem T_error_counter_update : forall act (s : scrst),
+  match act with AError => s <| ss_err := S (ss_err s) |> | _ => s <| ss_err := 0 |> end =
+  s <| ss_err := t_error_counter_update act (ss_err s) |>.
+Proof. exact error_counter_update_eq. Qed.
+Theorem T_process_input_after : forall act c,
+  t_process_input_after act c =
+  let c' := match act with AError => S c | _ => 0 end in (c', (act, (Nat.modulo c' 5 =? 0)%nat)).
+Proof. exact process_input_after_eq. Qed.
+Theorem T_is_input_expected : forall none c, t_is_input_expected none c = if none then (false, 0) else (true, c).
+Proof. exact is_input_expected_eq. Qed.
+Theorem T_process_input_result : forall spec act sr, t_process_input_result spec act sr = process_input_result spec act sr.
+Proof. exact process_input_result_eq. Qed.
+
 Print Assumptions T_process_input_table.
 Print Assumptions T_threshold_exceeded.
 Print Assumptions T_was_successful.
@@ -37,3 +222,54 @@ Print Assumptions T_translate_input.
 Print Assumptions T_exception_priority.
 Print Assumptions T_default_priority.
 Print Assumptions T_prompt_keys.
+Print Assumptions T_sig_render.
+Print Assumptions T_sig_close.
+Print Assumptions T_sig_exception.
+Print Assumptions T_sig_ready.
+Print Assumptions T_sig_received.
+Print Assumptions T_signal_priorities.
+Print Assumptions T_signal_sites.
+Print Assumptions T_tm_init.
+Print Assumptions T_tm_take_ticket.
+Print Assumptions T_tm_check_ticket.
+Print Assumptions T_tm_mark_line_to_go.
+Print Assumptions T_tm_inv_empty.
+Print Assumptions T_tm_inv_take.
+Print Assumptions T_tm_inv_mark.
+Print Assumptions T_tm_inv_check.
+Print Assumptions T_ss_init.
+Print Assumptions T_ss_empty.
+Print Assumptions T_ss_size.
+Print Assumptions T_ss_append.
+Print Assumptions T_ss_add_first.
+Print Assumptions T_ss_pop.
+Print Assumptions T_ss_peek.
+Print Assumptions T_get_last_screen.
+Print Assumptions T_screen_data.
+Print Assumptions T_sched_stack_ops.
+Print Assumptions T_eq_init.
+Print Assumptions T_eq_empty.
+Print Assumptions T_eq_put.
+Print Assumptions T_eq_enqueue.
+Print Assumptions T_eq_contains_source.
+Print Assumptions T_eq_add_source.
+Print Assumptions T_eq_enqueue_if_source_belongs.
+Print Assumptions T_ml_enqueue_loop.
+Print Assumptions T_ml_enqueue_signal.
+Print Assumptions T_error_counter_update.
+Print Assumptions T_process_input_after.
+Print Assumptions T_is_input_expected.
+Print Assumptions T_process_input_result.
+Print Assumptions T_eq_get.
+Print Assumptions T_eq_get_top_event_if_priority.
+Print Assumptions T_prompt_init.
+Print Assumptions T_prompt_defaults.
+Print Assumptions T_prompt_set_message.
+Print Assumptions T_prompt_add_option.
+Print Assumptions T_prompt_update_option.
+Print Assumptions T_prompt_add_special.
+Print Assumptions T_prompt_remove_option.
+Print Assumptions T_prompt_str.
+Print Assumptions T_spacer.
+Print Assumptions T_continue_message.
+Print Assumptions T_prompt_height.
